@@ -1,19 +1,24 @@
 """C09 - String syntax: quoting, concatenation, here-documents denote one exact string.
 
-Layer (a) `cli_roundtrip`: a test case is rendered from fragments (naked / soft / hard quoted, with symbol
-references), separators and a host instruction; the real program runs it (`--keep`) and the denoted value is read
-back from the file the case created (`file o = ...`, contents read from the kept sandbox) or from the argument
-vector a probe program received (`% probe ARGS`, `run ( % probe ARGS )`, `def list` + `% probe @[X]@`, `[act]`).
-The oracle is `vlib/ref/c09_reader.py`, an independent reader of the syntax as the built-in manual describes it.
-Malformed forms (unterminated quote, missing here-document end marker, naked reserved word, superfluous argument)
-must give SYNTAX_ERROR reported at the first line of the instruction that contains them.
+Layer (a) `cli_roundtrip` / `cli_unicode_space`: a test case is rendered from fragments (naked / soft / hard quoted,
+with symbol references), separators and a host instruction; the real program runs it (`--keep`) and the denoted
+value is read back from what the case did with it: the file it created (`file o = ...`, `file o += ...`,
+`def string` / `def text-source` + `file o = @[X]@`), the name of the created file (`file NAME`), the argument
+vector a probe program received (`% probe ARGS`, `run % probe ARGS`, `run ( % probe ARGS )`, `run @ PR ARGS`,
+`def list` + `% probe @[X]@`, `[act]`), the probe's stdin (`stdin = ...`, `-stdin ...`), the probe's environment
+(`env V_ = ...`) or the verdict of `equals ...` against a file with known contents.  The oracle is
+`vlib/ref/c09_reader.py`, an independent reader of the syntax as the built-in manual describes it.  Malformed forms
+(unterminated quote, missing here-document end marker, naked reserved word, superfluous argument) must give
+SYNTAX_ERROR reported at the first line of the instruction that contains them, in the file that contains it.
+The instruction is followed by another instruction, directly by the instruction that uses the value / a phase
+header, or by the end of the file (with and without final line break), and may be the last one of an included file.
 
 Layer (b) `tokenizer_diff`: `TokenStream` (token string, quotedness, source string, position, remaining part of
 the current line, line-wise consumption) against the reader's tokenizer over generated sources and operation
 sequences.
 
 Layer (c) `tokenizer_small`: the same comparison, exhaustively over all sources up to length 4 (quick) / 5
-(thorough) of a 9 character alphabet.
+(thorough) of a 10 character alphabet.
 
 `cli_examples`: the examples the manual itself gives for these syntax elements, and the minimal input of every
 finding, with the documented value.
@@ -32,22 +37,36 @@ from vlib.runner import Sub, Verdict, fail
 PROPERTY_ID = 'C09'
 LEVEL = 'exploration'
 RULE = ('cli_examples: the manual\'s own examples for STRING/RICH-STRING/LIST/SYMBOL-REFERENCE and the minimal input of '
-        'every finding (enumerated, all counted). cli_roundtrip: Hypothesis draws (host in def string/file/def list/% args/run ( % args )/[act]) x '
-        '(items: tokens of 1-4 adjacent naked/soft/hard fragments over an alphabet with blanks, both quotes, @[ ]@, '
-        'reserved words, option-like words, #, backslash, newline-in-quotes, non-ASCII, references to string/list/'
-        'path/undefined symbols; `:> text`; here documents with marker-like/header-like/comment-like lines; '
+        'every finding (enumerated, all counted). cli_roundtrip: Hypothesis draws (host in def string/def text-source/'
+        'file =/file +=/file NAME/env/stdin/-stdin/equals/def list/% args/run % args/run ( % args )/run @ PR args/'
+        '[act]) x (items: tokens of 1-4 adjacent naked/soft/hard fragments over an alphabet with blanks, both quotes, '
+        '@[ ]@, reserved words, option-like words, #, backslash, newline-in-quotes, non-ASCII, references to string/'
+        'list/path/undefined symbols; `:> text`; here documents with marker-like/header-like/comment-like lines; '
         'unterminated quotes; missing end markers) x separators (blanks, tabs, backslash continuation) x next token '
-        '(end of line, argument, option, quoted reserved word, parenthesis); non-trivial = the target contains a '
-        'special character, >= 2 fragments in a token, `:>` or a here document; distinct = distinct (host, target '
-        'instruction text). tokenizer_diff: Hypothesis draws of (source text, sequence of consume / consume-rest-of-'
-        'line operations); non-trivial = source has a quote, `#`, newline or >= 2 tokens; distinct = distinct '
-        '(source, ops). tokenizer_small: every string over {a,space,newline,",\',#,\\,@,=} up to length 4 (quick) / '
-        '5 (thorough), token-wise consumption; all counted. tokenizer_fuzz: coverage-guided campaigns (atheris/'
+        '(end of line, argument, option, quoted reserved word, parenthesis) x what follows the instruction (another '
+        'instruction, the using instruction / a phase header, end of file with / without final line break) x (in the '
+        'test case file / last instruction of an included file); non-trivial = the target contains a special '
+        'character, >= 2 fragments in a token, `:>` or a here document; distinct = distinct (host, target instruction '
+        'text, end). cli_unicode_space: the same with 1-2 Unicode white-space characters other than blank/tab/LF '
+        '(NBSP, FF, VT, FS..US, NEL, U+1680, U+2000-200A, U+2028/9, U+202F, U+205F, U+3000) added to every alphabet: '
+        'at the start / end / inside of naked fragments, next to quotes, inside quotes, as whole tokens, before and '
+        'after a continuation backslash, after a here-document start, in `:>` text and here-document lines. '
+        'tokenizer_diff: Hypothesis draws of (source text, sequence of consume / consume-rest-of-line operations); '
+        'non-trivial = source has a quote, `#`, newline or >= 2 tokens; distinct = distinct (source, ops). '
+        'tokenizer_small: every string over {a,space,newline,",\',#,\\,@,=,NBSP} up to length 4 (quick) / 5 '
+        '(thorough), token-wise consumption; all counted. tokenizer_fuzz: coverage-guided campaigns (atheris/'
         'libFuzzer, shlex and TokenStream instrumented) over the same tokenizer oracle; bytes are decoded into '
         '(operations, fragments of a fixed syntax alphabet); every second campaign starts from an empty corpus; '
         'mismatches are collected per bucket and replayed through tokenizer_diff')
 ASSUMPTIONS = [
-    'whitespace = space, tab, CR, LF (the manual only says "whitespace"); generated sources use space, tab, LF',
+    'the manual says "whitespace" without naming the characters. Reading A: blank, tab, CR, LF. Readings B(U): these '
+    'plus a set U of the other Unicode white-space characters that occur in the instruction. A case passes when ONE '
+    'reading explains the whole observation (all tokens, end-of-line tests and `:>` trimming of the instruction); a '
+    'character may not be white space at the edge of a token and an ordinary character inside the same instruction. '
+    '"Whitespace at both ends is removed" (`:>`) may independently mean every Unicode white-space character. '
+    'A line ends at LF only; CR is not generated in test case files (they are read with universal newlines)',
+    'the tokenizer-level sub-checks use reading A (TokenStream documents its tokens as those of a shell-like lexer '
+    'with whitespace blank/tab/CR/LF)',
     'a quoted fragment may contain line breaks (the manual puts no restriction on CHARACTER inside quotes)',
     'a symbol reference that only comes into being by concatenating adjacent naked/soft fragments (`@["S"]@`) '
     'may or may not be substituted - both readings accepted (reader flag xref)',
@@ -57,106 +76,197 @@ ASSUMPTIONS = [
     'accepted (reader flag strict)',
     'not generated because the manual is open: a naked string that starts with `<<` (here-document look-alike), '
     'a naked `\\` as the last character of a longer last token on a list line, a continuation line that starts '
-    'with `[`, here-document markers outside [0-9a-zA-Z_-]+, end-marker lines with surrounding blanks after the '
-    'marker, a transformation after a here document',
+    'with `[`, here-document markers outside [0-9a-zA-Z_-]+, end-marker lines with white space after the '
+    'marker, a transformation after a here document, `file NAME` with an option-like name, a reference to a list / '
+    'path symbol, or a value that is no plain file name (empty, `.`, `..`, contains `/`, > 200 bytes)',
     'TokenStream.position is only required to lie between the end of the previous token and the start of the '
     'head token without passing a line break (how much inter-token whitespace is consumed is not specified)',
     'a reference to an undefined symbol in a substituting fragment gives VALIDATION_ERROR (property C08)',
-    'the act host uses one physical line only (empty and comment lines of [act] are removed before parsing)',
+    'the act host uses one physical line only (empty and comment lines of [act] are removed before parsing); the '
+    'line number of a syntax error in [act] is not checked (the actor reports the phase, not the line)',
+    '`equals` only shows whether the denoted string is equal to the expected one (the contents of a file written '
+    'with the value the reader gives under its first reading)',
 ]
 
-KF_COMMENT = 'KF-C09-1'
-KF_FIRST_FRAGMENT = 'KF-C09-2'
-KF_PLAIN_BY_FIRST = 'KF-C09-3'
-KF_DEAD_LEXER = 'KF-C09-4'
+KF_LINE_BLANK = 'KF-C09-6'
+KF_AFTER_NAME = 'KF-C09-7'
 
-_DEFECT_FLAGS = [('comment', KF_COMMENT), ('kf2', KF_FIRST_FRAGMENT), ('kf3', KF_PLAIN_BY_FIRST)]
-_VARIANTS = [dict(xref=x, strict=s) for x in (False, True) for s in (False, True)]
+_DEFECT_FLAGS = [('kf6', KF_LINE_BLANK), ('kf7', KF_AFTER_NAME)]
 
 
 # =====================================================================================================================
 # layer (a)
 # =====================================================================================================================
-_INSTRUCTION_NAMES = ('$', '%', 'cd', 'copy', 'def', 'dir', 'env', 'file', 'run', 'stdin', 'timeout', 'including')
+_INSTRUCTION_NAMES = ('$', '%', 'cd', 'copy', 'def', 'dir', 'env', 'file', 'run', 'stdin', 'timeout', 'including',
+                      'exit-code', 'contents', 'stdout', 'stderr', 'exists', 'dir-contents')
 
 
 def _leftover(text, end, target_end):
     """The instruction ended at `end`, before the text written for it: what do the left-over lines give?
 
-    -> ['syntax', line] if the first left-over line that is an instruction line starts with a word that is no
-    instruction name, else ['illformed'] (not predicted)."""
+    -> 'syntax' if the first left-over line that is an instruction line starts with a word that is no
+    instruction name, else None (not predicted)."""
     nl = text.find('\n', end)
+    if nl < 0:
+        return None
     line_no = text.count('\n', 0, nl) + 2
     for line in text[nl + 1:target_end].split('\n'):
-        st = line.strip()
+        st = line.strip(' \t')
         if st == '' or st.startswith('#'):
             line_no += 1
             continue
+        if st.strip(ref.ALL_WS) == '' or st[0] in ref.ALL_WS:
+            return None  # how the document parser takes a line of / starting with other white space: not C09's
         if st.startswith('[') or st.split()[0] in _INSTRUCTION_NAMES:
             break
-        return ['syntax', line_no]
-    return ['illformed']
+        return line_no
+    return None
 
 
-def _outcomes(host, text, pos, target_end, target_line, symbols, **defects):
-    """Set of predicted outcomes (JSON strings) over the open readings."""
-    out = set()
-    for var in _VARIANTS:
+def _variants(target_text, defect: bool):
+    present = sorted(set(c for c in target_text if c in ref.UNICODE_WS))
+    if defect or not present:
+        subsets = ['']
+    elif len(present) <= 3:
+        subsets = [''.join(s) for n in range(len(present) + 1) for s in itertools.combinations(present, n)]
+    else:
+        subsets = [''] + present + [''.join(present)]
+    eol = (False, True) if present else (False,)
+    return [dict(ws_extra=w, eol_uni=e, xref=x, strict=s)
+            for w in subsets for e in eol for x in (False, True) for s in (False, True)]
+
+
+_SAFE_NAME_MAX = 200
+
+
+def _observable(host, oc, ctx):
+    """Reader outcome -> what the check can observe for this host."""
+    kind = oc[0]
+    if kind == 'str':
+        v = oc[1]
+        if host == 'fname':
+            if v in ('', '.', '..') or '/' in v or '\0' in v or len(v.encode('utf-8')) > _SAFE_NAME_MAX:
+                return ['unsupported']
+            return ['name', v]
+        if host == 'equals':
+            return ['eq', v == ctx['exp']]
+        return ['str', v]
+    if kind == 'list' and host == 'symargs':
+        return ['list', ['pre1'] + oc[1]]
+    return oc
+
+
+def _outcomes(host, rd, symbols, ctx, **defects):
+    """-> {predicted outcome (JSON string): [reading...]} over the open readings."""
+    text, pos, target_end = rd['text'], rd['arg_pos'], rd['target_end']
+    out = {}
+    for var in _variants(rd['target'], bool(defects)):
         modes = dict(var)
         modes.update(defects)
         oc, end = ref.read_host(host, text, pos, symbols, **modes)
         if oc[0] == 'syntax':
-            oc = ['syntax', None if host == 'act' else target_line]
+            oc = ['syntax', _PHASE.get(host, 'setup'), None if host == 'act' else rd['location']]
         elif oc[0] != 'unsupported':
             # the value must end where the instruction ends, else the following lines are something else
             if end > target_end:
                 oc = ['illformed']
-            elif text[end:target_end].strip() != '':
-                oc = _leftover(text, end, target_end) if (defects and host != 'act') else ['illformed']
-        out.add(json.dumps(oc, ensure_ascii=False))
+            elif text[end:target_end].strip(ref.ALL_WS) != '':
+                line = _leftover(text, end, target_end) if host != 'act' else None
+                oc = ['illformed'] if line is None else ['syntax', _PHASE.get(host, 'setup'),
+                                                         rd['location'][:-1] + [[rd['src_name'], line]]]
+        oc = _observable(host, oc, ctx)
+        out.setdefault(json.dumps(oc, ensure_ascii=False), []).append(var)
     return out
 
 
-_LINE_RE = re.compile(r'^t\.case, line (\d+)$', re.M)
+_LOC_RE = re.compile(r'^(\S[^\n]*), line (\d+)$', re.M)
+_PHASE_RE = re.compile(r'^In \[([a-z-]+)\]$', re.M)
+_PHASE = {'act': 'act', 'equals': 'assert'}
+_KNOWN_ACT_NAMES = ('o', 'd1', 'd2', 'd9')
 
 
 def _observe(ws, r, host):
-    """-> (outcome, extra) in the shape of the reader's outcomes"""
+    """-> outcome in the shape of the (observable) reader outcomes"""
     if r.exception or r.timed_out:
-        return ['crash', r.exception or 'timeout'], None
+        return ['crash', r.exception or 'timeout']
     first = r.first_err_line
     if r.exit_code == 0 and first == 'PASS':
         sds = r.out.strip()
-        if host in ('defstr', 'file'):
+        if host in ('defstr', 'deftsrc', 'file', 'fileapp'):
             path = os.path.join(sds, 'act', 'o')
             try:
                 with open(path, 'rb') as f:
-                    return ['str', f.read().decode('utf-8', errors='replace')], None
+                    return ['str', f.read().decode('utf-8', errors='replace')]
             except OSError as ex:
-                return ['no-file', str(ex)], None
+                return ['no-file', str(ex)]
+        if host == 'fname':
+            names = sorted(n for n in os.listdir(os.path.join(sds, 'act')) if n not in _KNOWN_ACT_NAMES)
+            return ['name', names[0]] if len(names) == 1 else ['names', names]
+        if host == 'equals':
+            return ['eq', True]
         recs = ws.probe_records('p')
         if len(recs) != 1:
-            return ['probe-runs', len(recs)], None
-        return ['list', recs[0]['argv']], None
+            return ['probe-runs', len(recs)]
+        if host == 'env':
+            return ['str', recs[0]['env']['V_']] if 'V_' in recs[0]['env'] else ['env-var-not-set']
+        if host in ('stdin', 'pstdin'):
+            return ['str', recs[0]['stdin']]
+        return ['list', recs[0]['argv']]
+    if r.exit_code != 0 and first == 'FAIL' and host == 'equals':
+        return ['eq', False]
     if r.exit_code == 65 and first == 'SYNTAX_ERROR':
-        m = _LINE_RE.search(r.err)
-        return ['syntax', (int(m.group(1)) if m and host != 'act' else None)], None
+        head = r.err.split('\n\n\n')[0]
+        loc = [[m.group(1), int(m.group(2))] for m in _LOC_RE.finditer(head)]
+        m = _PHASE_RE.search(head)
+        return ['syntax', m.group(1) if m else None, None if host == 'act' else loc]
     if r.exit_code == 65 and first == 'VALIDATION_ERROR':
-        return ['validation'], None
-    return ['other', r.exit_code, first], None
+        return ['validation']
+    return ['other', r.exit_code, first]
 
 
 _CHAR_CLASS = {' ': 'blank', '\t': 'blank', '\n': 'newline', "'": 'hard-quote-char', '"': 'soft-quote-char', '@': 'at',
                '[': 'bracket', ']': 'bracket', '(': 'bracket', ')': 'bracket', '{': 'bracket', '}': 'bracket',
                '#': 'hash', '\\': 'backslash', '=': 'operator-char', ':': 'operator-char', '|': 'operator-char',
                '!': 'operator-char', '&': 'operator-char', '-': 'dash', '<': 'angle', '>': 'angle', 'é': 'non-ascii'}
-_REF_TYPE = {'S': 'string', 'E': 'string', 'a_b': 'string', 'L': 'list', 'L0': 'list', 'P': 'path'}
+_REF_TYPE = {'S': 'string', 'E': 'string', 'a_b': 'string', 'U': 'string', 'L': 'list', 'L0': 'list', 'P': 'path'}
+_UWS_NAME = {'\xa0': 'NBSP', '\x0c': 'FF', '\x0b': 'VT', '\x85': 'NEL', '\u2028': 'LS', '\u2029': 'PS',
+             '\u3000': 'U+3000'}
+
+
+def _uws_labels(rd, seen):
+    """Where do the Unicode white-space characters stand?"""
+    u = ref.UNICODE_WS
+    for it in rd['norm_items']:
+        if it[0] == 'tok':
+            frags = it[1]
+            for i, (k, t) in enumerate(frags):
+                if not any(c in u for c in t):
+                    continue
+                if k != 'n':
+                    seen.add('uws:in-quotes')
+                    continue
+                if t.strip(u) == '':
+                    seen.add('uws:whole-token' if len(frags) == 1 else 'uws:whole-naked-fragment-next-to-quote')
+                    continue
+                first, last = i == 0, i == len(frags) - 1
+                if t[0] in u:
+                    seen.add('uws:token-start' if first else 'uws:after-quote')
+                if t[-1] in u:
+                    seen.add('uws:token-end' if last else 'uws:before-quote')
+                if any(c in u for c in t.strip(u)):
+                    seen.add('uws:inside-naked')
+        elif it[0] == 'eol':
+            t = it[1]
+            if any(c in u for c in t):
+                seen.add('uws:eol-text-edge' if t.strip(' \t') != t.strip(' \t' + u) else 'uws:eol-text-inside')
+        else:
+            if any(c in u for l in it[2] for c in l):
+                seen.add('uws:here-line')
 
 
 def _labels_cli(case, rd, doc_kinds):
-    """At most ~60 distinct labels (the evidence keeps the 60 most frequent classes of a sub-check)."""
     host = case['host']
-    labels = ['host:' + host, 'next:%s' % rd['next']]
+    labels = ['host:' + host, 'next:%s' % rd['next'], 'end:' + rd['end'] + ('-of-included-file' if rd['inc'] else '')]
     seen = set()
     for it in rd['norm_items']:
         seen.add('item:' + it[0])
@@ -174,6 +284,9 @@ def _labels_cli(case, rd, doc_kinds):
                 seen.add('naked-reserved-word')
             elif ''.join(t for _, t in frags) in gen.RESERVED:
                 seen.add('quoted-reserved-word')
+            nrefs = sum(len(ref.REF_RE.findall(t)) for _, t in frags)
+            if nrefs >= 2 and len(frags) >= 2:
+                seen.add('refs:several-in-multi-fragment-token')
         elif it[0] == 'eol':
             texts.append(('eol', it[1]))
         else:
@@ -200,6 +313,16 @@ def _labels_cli(case, rd, doc_kinds):
     for s in case['seps']:
         if '\n' in s and host != 'act':
             seen.add('sep:continuation')
+    present = set(c for c in rd['target'] if c in ref.UNICODE_WS)
+    if present:
+        _uws_labels(rd, seen)
+        for c in present:
+            seen.add('uws-char:' + _UWS_NAME.get(c, 'other'))
+        for k in ('pre', 'tail'):
+            if any(c in ref.UNICODE_WS for c in case.get(k, '')):
+                seen.add('uws:' + k)
+        if any(c in ref.UNICODE_WS for s in case['seps'] for c in s):
+            seen.add('uws:separator')
     labels.extend(sorted(seen))
     labels.extend('expect:' + k for k in sorted(doc_kinds))
     return labels
@@ -220,46 +343,63 @@ def _nontrivial(rd):
 def check_cli(case) -> Verdict:
     rd = gen.render(case)
     host = case['host']
-    text, pos, target_end = rd['text'], rd['arg_pos'], rd['target_end']
-    key = host + '|' + rd['target']
+    key = host + '|' + rd['end'] + ('|inc|' if rd['inc'] else '|') + rd['target']
     nontrivial = _nontrivial(rd)
     with driver.Workspace() as ws:
         symbols = {k: (t, (ws.subst(v) if isinstance(v, str) else v)) for k, (t, v) in gen.SYMBOLS.items()}
-        doc = _outcomes(host, text, pos, target_end, rd['target_line'], symbols)
+        ctx = {'exp': ''}
+        if host == 'equals':
+            # the expected text = the value under the first reading that gives one
+            for var in _variants(rd['target'], False):
+                oc, _ = ref.read_host(host, rd['text'], rd['arg_pos'], symbols, **var)
+                if oc[0] == 'str':
+                    ctx['exp'] = oc[1]
+                    break
+        doc = _outcomes(host, rd, symbols, ctx)
         doc_kinds = {json.loads(o)[0] for o in doc}
         labels = _labels_cli(case, rd, doc_kinds)
-        if doc_kinds & {'illformed', 'unsupported'}:
-            return Verdict(True, nontrivial=False, labels=labels + ['skipped:' + '+'.join(sorted(doc_kinds))])
-        ws.write('t.case', text)
+        open_a = {json.loads(o)[0] for o, vs in doc.items() if any(v['ws_extra'] == '' for v in vs)} & \
+                 {'illformed', 'unsupported'}
+        if open_a:
+            return Verdict(True, nontrivial=False, labels=labels + ['skipped:' + '+'.join(sorted(open_a))])
+        for name, text in rd['files'].items():
+            ws.write(name, text)
+        if host == 'equals':
+            ws.write('exp', ctx['exp'].encode('utf-8'))
         r = driver.run_inproc(ws, ['--keep', 't.case'])
-        actual, err_line = _observe(ws, r, host)
+        actual = _observe(ws, r, host)
         stderr_head = r.err[:700]
     actual_s = json.dumps(actual, ensure_ascii=False)
 
     def detail(what, **kw):
-        d = {'what': what, 'host': host, 'target_instruction': rd['target'], 'target_line': rd['target_line'],
-             'expected_any_of': sorted(doc), 'observed': actual, 'observed_error_line': err_line,
-             'stderr': stderr_head, 'case_text': text}
+        d = {'what': what, 'host': host, 'target_instruction': rd['target'], 'location': rd['location'],
+             'expected_any_of': sorted(doc), 'observed': actual, 'stderr': stderr_head, 'files': rd['files']}
         d.update(kw)
         return d
 
-    if actual_s in doc:
+    if actual_s in doc and json.loads(actual_s)[0] not in ('illformed', 'unsupported'):
+        how = 'A' if any(v['ws_extra'] == '' for v in doc[actual_s]) else 'B'
+        if len(doc) > 1:
+            labels = labels + ['readings-differ:observed-is-' + how]
         return Verdict(True, nontrivial=nontrivial, key=key, labels=labels + ['verdict:ok'])
+    if doc_kinds & {'illformed', 'unsupported'}:
+        # one of the white-space readings leads outside the part of the syntax that the reader models
+        return Verdict(True, nontrivial=False, labels=labels + ['skipped:open-under-a-reading'])
     # ---- mismatch: is it exactly what a listed defect predicts? -------------------------------------------
-    for n in (1, 2, 3):
+    for n in range(1, len(_DEFECT_FLAGS) + 1):
         for combo in itertools.combinations(_DEFECT_FLAGS, n):
             flags = {name: True for name, _ in combo}
-            pred = _outcomes(host, text, pos, target_end, rd['target_line'], symbols, **flags)
-            if actual_s in pred:
+            pred = _outcomes(host, rd, symbols, ctx, **flags)
+            if actual_s in pred and actual[0] not in ('illformed', 'unsupported'):
                 kf = combo[0][1]
                 return Verdict(ok=False, known=kf, bucket='cli/' + kf,
                                detail=detail('matches defect model ' + '+'.join(k for _, k in combo)),
-                               labels=labels + ['verdict:' + kf],
+                               labels=labels + ['verdict:' + '+'.join(k for _, k in combo)],
                                nontrivial=nontrivial, key=key)
     exp_kind = '+'.join(sorted(doc_kinds))
     what = 'value differs'
     if actual[0] == 'syntax' and 'syntax' in doc_kinds:
-        what = 'syntax error reported at another line than that of the instruction'
+        what = 'syntax error reported at another place than the instruction'
         exp_kind = 'syntax-at-line'
     return fail('cli/%s/expected-%s/got-%s' % (host, exp_kind, actual[0]), detail(what),
                 labels=labels + ['verdict:violation'], nontrivial=nontrivial, key=key)
@@ -300,7 +440,7 @@ def _run_token_stream(src, ops):
         last = log[-1]
         try:
             if op == 0:
-                if last['state'] == 'null':
+                if last['is_null'] and last['state'] != 'err':
                     continue  # precondition of consume: not is_null
                 try:
                     t = ts.consume()
@@ -320,23 +460,22 @@ def _run_token_stream(src, ops):
     return log
 
 
-def _explain(src, log, comment, dead_model=False):
+def _explain(src, log, kf6=False):
     """First disagreement between the log and the reference tokenizer (None = consistent).
 
-    comment     defect model KF-C09-1 (`#` starts a comment)
-    dead_model  defect model KF-C09-4: once the lexer has read a token that ends at the very end of the source,
-                it delivers no more tokens, although line-wise consumption re-positions the stream
+    kf6  defect model KF-C09-6: "the rest of the line is blank" is decided with str.isspace(); when such a rest of a
+         line that contains a token is consumed line-wise, the look-ahead token stays what it was
     """
     n = len(src)
     prev = None
-    dead = False  # the lexer has reached the end of the source while reading a token
-    no_more = False  # ... and has been asked again since: the head stays null
+    cur_tok = None  # the reference token that is the expected head
+    line_ws = ref.ALL_WS if kf6 else ref.ASCII_WS
     for i, rec in enumerate(log):
         if 'exception' in rec:
             return {'step': i, 'what': 'exception', 'observed': rec['exception']}
         pos = rec['pos']
         op = rec['op']
-        lexes = True  # does the implementation run its lexer in this step?
+        inherit = False  # the head is expected to be what it was before the operation
         # ---- where may the position be? -------------------------------------------------------------------
         if op == 'new':
             lo = hi = 0
@@ -346,61 +485,55 @@ def _explain(src, log, comment, dead_model=False):
                     return {'step': i, 'what': 'consume of a malformed head must raise TokenSyntaxError',
                             'observed': rec['ret']}
                 lo = hi = prev['pos']
-                lexes = False
+                inherit = True
             else:
                 if rec['ret'] != prev['head']:
                     return {'step': i, 'what': 'consume must return the head', 'observed': rec['ret'],
                             'expected': prev['head']}
-                ht = ref.next_token(src, prev['pos'], comment)
+                ht = cur_tok
                 lo = ht.end
-                nt = ref.next_token(src, lo, comment)
+                nt = ref.next_token(src, lo)
                 hi = nt.start if nt.kind != 'null' else n
                 nl = src.find('\n', lo)
                 if nl != -1:
                     hi = min(hi, nl)
         else:
             le = ref.line_end(src, prev['pos'])
-            if rec['ret'] != src[prev['pos']:le]:
+            rest = src[prev['pos']:le]
+            if rec['ret'] != rest:
                 return {'step': i, 'what': 'text of the rest of the line', 'observed': rec['ret'],
-                        'expected': src[prev['pos']:le]}
+                        'expected': rest}
             lo = hi = le if op == 'rest_of_line' else min(n, le + 1)
-            lexes = le < n and src[prev['pos']:le].strip() != ''
+            if kf6 and (prev['pos'] == n or (le < n and rest.strip(ref.ALL_WS) == '')):
+                # the implementation re-positions its lexer only when the consumed text is not str.isspace()
+                inherit = True
         if not (lo <= pos <= hi):
             return {'step': i, 'what': 'position', 'observed': pos, 'expected': [lo, hi]}
         # ---- the head -------------------------------------------------------------------------------------
-        t = ref.next_token(src, pos, comment)
-        if dead_model:
-            if lexes and dead:
-                no_more = True
-            if no_more:
-                t = ref.Tok('null', n, n)
-            elif lexes and t.kind == 'tok' and t.end == n and not t.cut:
-                dead = True
-            elif lexes and t.kind == 'err':
-                dead = False  # a fresh lexer is created after a quoting error
-        if rec['state'] != t.kind:
-            return {'step': i, 'what': 'look-ahead state', 'observed': rec['state'], 'expected': t.kind,
-                    'expected_token': t.as_list()}
-        if t.kind == 'tok':
-            if comment:
-                exp_src = src[pos:t.end].strip()
-                exp_quoted = exp_src[:1] in ('"', "'")
-            else:
-                exp_src = src[t.start:t.end]
-                exp_quoted = not t.all_naked
-            exp = [exp_quoted, t.string, exp_src]
-            if rec['head'] != exp:
-                return {'step': i, 'what': 'head token [is_quoted, string, source_string]', 'observed': rec['head'],
-                        'expected': exp}
-            after = rec['after_head']
-            nt = ref.next_token(src, t.end, comment)
-            hi2 = nt.start if nt.kind != 'null' else n
-            if not (t.end <= after <= hi2):
-                return {'step': i, 'what': 'remaining_source_after_head', 'observed': after,
-                        'expected': [t.end, hi2]}
+        if inherit:
+            if [rec['state'], rec['head'], rec['after_head']] != [prev['state'], prev['head'], prev['after_head']]:
+                return {'step': i, 'what': 'look-ahead must be unchanged', 'observed': [rec['state'], rec['head']],
+                        'expected': [prev['state'], prev['head']]}
         else:
-            if rec['head'] is not None or not rec['is_null']:
-                return {'step': i, 'what': 'head must be null', 'observed': rec['head']}
+            t = ref.next_token(src, pos)
+            cur_tok = t
+            if rec['state'] != t.kind:
+                return {'step': i, 'what': 'look-ahead state', 'observed': rec['state'], 'expected': t.kind,
+                        'expected_token': t.as_list()}
+            if t.kind == 'tok':
+                exp = [not t.all_naked, t.string, src[t.start:t.end]]
+                if rec['head'] != exp:
+                    return {'step': i, 'what': 'head token [is_quoted, string, source_string]',
+                            'observed': rec['head'], 'expected': exp}
+                after = rec['after_head']
+                nt = ref.next_token(src, t.end)
+                hi2 = nt.start if nt.kind != 'null' else n
+                if not (t.end <= after <= hi2):
+                    return {'step': i, 'what': 'remaining_source_after_head', 'observed': after,
+                            'expected': [t.end, hi2]}
+            else:
+                if rec['head'] is not None or not rec['is_null']:
+                    return {'step': i, 'what': 'head must be null', 'observed': rec['head']}
         le = ref.line_end(src, pos)
         if rec['rpocl'] != src[pos:le]:
             return {'step': i, 'what': 'remaining_part_of_current_line', 'observed': rec['rpocl'],
@@ -409,7 +542,7 @@ def _explain(src, log, comment, dead_model=False):
             return {'step': i, 'what': 'remaining_source'}
         if rec['at_end'] != (pos == n):
             return {'step': i, 'what': 'is_at_end', 'observed': rec['at_end']}
-        if rec['line_empty'] != (src[pos:le].strip(' \t\r\n') == ''):
+        if rec['line_empty'] != (src[pos:le].strip(line_ws) == ''):
             return {'step': i, 'what': 'remaining_part_of_current_line_is_empty', 'observed': rec['line_empty']}
         prev = rec
     return None
@@ -421,14 +554,24 @@ def check_tok(case) -> Verdict:
     toks = ref.tokenize(src)
     labels = ['tokens:%d' % min(len(toks) - 1, 5), 'end:' + toks[-1].kind]
     kinds = set()
+    uws = any(c in ref.UNICODE_WS for c in src)
     for t in toks:
         for k, _ in t.frags:
             kinds.add(k)
-        if t.kind == 'tok' and len(t.frags) > 1:
+        if t.kind == 'tok' and len(t.frags) > 1 and 'multi-fragment-token' not in labels:
             labels.append('multi-fragment-token')
-            break
+        if uws and t.kind == 'tok':
+            s = src[t.start:t.end]
+            if s.strip(ref.UNICODE_WS) == '':
+                labels.append('uws:whole-token')
+            elif s != s.strip(ref.UNICODE_WS):
+                labels.append('uws:token-edge')
+            elif any(c in ref.UNICODE_WS for c in s):
+                labels.append('uws:inside-token')
+    labels = sorted(set(labels))
     labels.extend('frag:' + k for k in sorted(kinds))
-    for ch, name in (('#', 'hash'), ('\n', 'newline'), ('\\', 'backslash'), ('é', 'non-ascii'), ('@[', 'ref-open')):
+    for ch, name in (('#', 'hash'), ('\n', 'newline'), ('\\', 'backslash'), ('é', 'non-ascii'), ('@[', 'ref-open'),
+                     ('\r', 'CR')):
         if ch in src:
             labels.append('src:' + name)
     if re.search(r'["\']\n', src):
@@ -437,22 +580,18 @@ def check_tok(case) -> Verdict:
         if rec.get('op') in ('rest_of_line', 'line'):
             labels.append('op:line-wise')
             break
-    nontrivial = len(toks) > 2 or any(c in src for c in '"\'#\n')
+    nontrivial = len(toks) > 2 or any(c in src for c in '"\'#\n') or uws
     key = json.dumps([src, ops], ensure_ascii=False)
-    why = _explain(src, log, comment=False)
+    why = _explain(src, log)
     if why is None:
         return Verdict(True, nontrivial=nontrivial, key=key, labels=labels + ['verdict:ok'])
-    models = [((False, True), KF_DEAD_LEXER)]
-    if '#' in src:
-        models = [((True, False), KF_COMMENT)] + models + [((True, True), KF_COMMENT)]
-    for (comment, dead), kf in models:
-        if _explain(src, log, comment=comment, dead_model=dead) is None:
-            name = kf + ('+' + KF_DEAD_LEXER if comment and dead else '')
-            return Verdict(ok=False, known=kf, bucket='tok/' + kf,
-                           detail={'source': src, 'ops': ops, 'matches_defect_model': name,
-                                   'first_difference_to_documented_syntax': why,
-                                   'log': log[:why['step'] + 1][-2:]},
-                           labels=labels + ['verdict:' + name], nontrivial=nontrivial, key=key)
+    if uws and _explain(src, log, kf6=True) is None:
+        kf = KF_LINE_BLANK
+        return Verdict(ok=False, known=kf, bucket='tok/' + kf,
+                       detail={'source': src, 'ops': ops, 'matches_defect_model': kf,
+                               'first_difference_to_documented_syntax': why,
+                               'log': log[:why['step'] + 1][-2:]},
+                       labels=labels + ['verdict:' + kf], nontrivial=nontrivial, key=key)
     return fail('tok/%s' % why['what'].split(' [')[0], {'source': src, 'ops': ops, 'difference': why, 'log': log},
                 labels=labels + ['verdict:violation'], nontrivial=nontrivial, key=key)
 
@@ -462,63 +601,79 @@ def check_tok(case) -> Verdict:
 # =====================================================================================================================
 _EX_SYMS = "[setup]\ndef string S = 'sval'\ndef list L = 'e1' 'e 2'\n"
 _EX_PROBE = gen.PROBE_PREFIX
+_NB = '\xa0'
 EXAMPLES = [
     # --- from the manual ---
     {'name': 'manual: RICH-STRING here document', 'observe': 'file',
      'text': '[setup]\nfile o = <<EOF\nfirst line\n...\nlast line\nEOF\n[act]\n$ true\n',
-     'expect': ['str', 'first line\n...\nlast line\n']},
+     'expect': [['str', 'first line\n...\nlast line\n']]},
     {'name': 'manual (case spec): comment-like and empty lines inside a here document', 'observe': 'file',
      'text': '[setup]\nfile o = <<EOF\nthis assertion expects 4 lines of output\n# this is the second line of the '
              'expected output\n\nthe empty line above is part of the expected output\nEOF\n[act]\n$ true\n',
-     'expect': ['str', 'this assertion expects 4 lines of output\n# this is the second line of the expected output'
-                       '\n\nthe empty line above is part of the expected output\n']},
+     'expect': [['str', 'this assertion expects 4 lines of output\n# this is the second line of the expected output'
+                        '\n\nthe empty line above is part of the expected output\n']]},
     {'name': 'manual (concept symbol): def list with a quoted element', 'observe': 'probe',
      'text': '[setup]\ndef list LIST_SYMBOL = first second "the third"\n' + _EX_PROBE + ' @[LIST_SYMBOL]@\n[act]\n'
              '$ true\n',
-     'expect': ['list', ['first', 'second', 'the third']]},
+     'expect': [['list', ['first', 'second', 'the third']]]},
     {'name': 'manual (concept symbol): reference inside soft quotes, list with a reference', 'observe': 'probe',
      'text': '[setup]\ndef string SYMBOL_NAME = "the symbol value"\ndef string S = "reference to @[SYMBOL_NAME]@"\n'
              'def list L = first @[SYMBOL_NAME]@ "third element"\n' + _EX_PROBE + ' @[S]@ @[L]@\n[act]\n$ true\n',
-     'expect': ['list', ['reference to the symbol value', 'first', 'the symbol value', 'third element']]},
+     'expect': [['list', ['reference to the symbol value', 'first', 'the symbol value', 'third element']]]},
     {'name': 'manual (concept symbol): strings that resemble references are no references', 'observe': 'probe',
      'text': '[setup]\ndef string VALID_SYMBOL_NAME = v\n' + _EX_PROBE +
              ' @[NOT/A_VALID_SYMBOL_NAME]@ "@[VALID_SYMBOL_NAME ]@" @[VALID_SYMBOL_NAME]\n[act]\n$ true\n',
-     'expect': ['list', ['@[NOT/A_VALID_SYMBOL_NAME]@', '@[VALID_SYMBOL_NAME ]@', '@[VALID_SYMBOL_NAME]']]},
+     'expect': [['list', ['@[NOT/A_VALID_SYMBOL_NAME]@', '@[VALID_SYMBOL_NAME ]@', '@[VALID_SYMBOL_NAME]']]]},
     {'name': 'manual (PROGRAM-ARGUMENT): list as arguments / as one argument inside soft quotes', 'observe': 'probe',
      'text': _EX_SYMS + _EX_PROBE + ' @[L]@ "@[L]@"\n[act]\n$ true\n',
-     'expect': ['list', ['e1', 'e 2', 'e1 e 2']]},
+     'expect': [['list', ['e1', 'e 2', 'e1 e 2']]]},
     {'name': 'manual (STRING): all reserved words, quoted, are strings', 'observe': 'probe',
      'text': '[setup]\n' + _EX_PROBE + ' ' + ' '.join(('"%s"' if i % 2 else "'%s'") % w
                                                       for i, w in enumerate(gen.RESERVED)) + '\n[act]\n$ true\n',
-     'expect': ['list', list(gen.RESERVED)]},
+     'expect': [['list', list(gen.RESERVED)]]},
     {'name': 'manual (RICH-STRING): text until end of line, blanks at both ends removed', 'observe': 'file',
      'text': _EX_SYMS + 'file o = :>   the \'text\' "until" @[S]@ = end )  \t\n[act]\n$ true\n',
-     'expect': ['str', 'the \'text\' "until" sval = end )']},
+     'expect': [['str', 'the \'text\' "until" sval = end )']]},
     {'name': 'manual (LIST): backslash at end of line continues the list', 'observe': 'probe',
      'text': '[setup]\ndef list X = a \\\n  b "c \\" \\\n  d\n' + _EX_PROBE + ' @[X]@\n[act]\n$ true\n',
-     'expect': ['list', ['a', 'b', 'c \\', 'd']]},
-    # --- minimal inputs of the findings ---
+     'expect': [['list', ['a', 'b', 'c \\', 'd']]]},
+    # --- minimal inputs of the findings (the fixed ones are plain regression examples) ---
     {'name': 'KF-C09-1: `#` inside a naked string', 'observe': 'file',
      'text': '[setup]\nfile o = a#b\n[act]\n$ true\n',
-     'expect': ['str', 'a#b'], 'defect': [KF_COMMENT, ['str', 'a']]},
+     'expect': [['str', 'a#b']]},
     {'name': 'KF-C09-1: `#` inside a naked list element drops the rest of the line', 'observe': 'probe',
      'text': '[setup]\ndef list X = a#b c\n' + _EX_PROBE + ' @[X]@\n[act]\n$ true\n',
-     'expect': ['list', ['a#b', 'c']], 'defect': [KF_COMMENT, ['list', ['a']]]},
+     'expect': [['list', ['a#b', 'c']]]},
     {'name': 'KF-C09-2: soft quoted reference after a hard quoted fragment', 'observe': 'file',
      'text': _EX_SYMS + 'file o = \'x@[S]@\'"@[S]@"\n[act]\n$ true\n',
-     'expect': ['str', 'x@[S]@sval'], 'defect': [KF_FIRST_FRAGMENT, ['str', 'x@[S]@@[S]@']]},
+     'expect': [['str', 'x@[S]@sval']]},
     {'name': 'KF-C09-2: hard quoted reference after a naked fragment', 'observe': 'file',
      'text': _EX_SYMS + "file o = x'@[S]@'\n[act]\n$ true\n",
-     'expect': ['str', 'x@[S]@'], 'defect': [KF_FIRST_FRAGMENT, ['str', 'xsval']]},
+     'expect': [['str', 'x@[S]@']]},
     {'name': 'KF-C09-3: list reference concatenated with an empty quoted fragment is a string', 'observe': 'probe',
      'text': _EX_SYMS + 'def list X = @[L]@""\n' + _EX_PROBE + ' @[X]@\n[act]\n$ true\n',
-     'expect': ['list', ['e1 e 2']], 'defect': [KF_PLAIN_BY_FIRST, ['list', ['e1', 'e 2']]]},
+     'expect': [['list', ['e1 e 2']]]},
     {'name': 'KF-C09-4: meaning of a file must not depend on its final line break (with line break)',
      'observe': 'file', 'text': "[setup]\nfile o = ( <<EOF\n'\nEOF\n)\n[act]\n$ true # it's\n",
-     'expect': ['str', "'\n"]},
+     'expect': [['str', "'\n"]]},
     {'name': 'KF-C09-4: meaning of a file must not depend on its final line break (without line break)',
      'observe': 'file', 'text': "[setup]\nfile o = ( <<EOF\n'\nEOF\n)\n[act]\n$ true # it's",
-     'expect': ['str', "'\n"], 'defect': [KF_DEAD_LEXER, ['syntax', 2]]},
+     'expect': [['str', "'\n"]]},
+    # expect = the value under reading A (NBSP is an ordinary character), then under reading B (NBSP is white space)
+    {'name': 'KF-C09-5: a token that consists of a NO-BREAK SPACE', 'observe': 'file',
+     'text': '[setup]\nfile o = ' + _NB + '\n[act]\n$ true\n',
+     'expect': [['str', _NB], ['syntax', 'setup', [['t.case', 2]]]]},
+    {'name': 'KF-C09-5: NO-BREAK SPACE at the start of and inside a naked string', 'observe': 'file',
+     'text': '[setup]\nfile o = ' + _NB + 'a' + _NB + 'b\n[act]\n$ true\n',
+     'expect': [['str', _NB + 'a' + _NB + 'b'], ['syntax', 'setup', [['t.case', 2]]]]},
+    {'name': 'KF-C09-5: list element that consists of a NO-BREAK SPACE', 'observe': 'probe',
+     'text': '[setup]\ndef list X = a ' + _NB + ' b\n' + _EX_PROBE + ' @[X]@\n[act]\n$ true\n',
+     'expect': [['list', ['a', _NB, 'b']], ['list', ['a', 'b']]]},
+    {'name': 'KF-C09-6: last list element that consists of a NO-BREAK SPACE, after an element that contains one',
+     'observe': 'probe',
+     'text': '[setup]\ndef list X = a' + _NB + 'b ' + _NB + '\n' + _EX_PROBE + ' @[X]@\n[act]\n$ true\n',
+     'expect': [['list', ['a' + _NB + 'b', _NB]], ['list', ['a', 'b']]],
+     'defect': [KF_LINE_BLANK, ['list', ['a' + _NB + 'b']]]},
 ]
 
 
@@ -530,12 +685,12 @@ def check_example(case) -> Verdict:
     with driver.Workspace() as ws:
         ws.write('t.case', case['text'])
         r = driver.run_inproc(ws, ['--keep', 't.case'])
-        actual, _ = _observe(ws, r, 'file' if case['observe'] == 'file' else 'args')
+        actual = _observe(ws, r, 'file' if case['observe'] == 'file' else 'args')
         stderr_head = r.err[:600]
     labels = ['example:' + case['name'].split(':')[0]]
-    if actual == case['expect']:
+    if actual in case['expect']:
         return Verdict(True, nontrivial=True, key=case['name'], labels=labels + ['verdict:ok'])
-    d = {'example': case['name'], 'case_text': case['text'], 'expected': case['expect'], 'observed': actual,
+    d = {'example': case['name'], 'case_text': case['text'], 'expected_any_of': case['expect'], 'observed': actual,
          'stderr': stderr_head}
     if case.get('defect') and actual == case['defect'][1]:
         return Verdict(ok=False, known=case['defect'][0], bucket='example/' + case['defect'][0], detail=d,
@@ -543,7 +698,7 @@ def check_example(case) -> Verdict:
     return fail('example/' + case['name'].split(':')[0], d, labels=labels, nontrivial=True, key=case['name'])
 
 
-_SMALL_ALPHABET = ['a', ' ', '\n', '"', "'", '#', '\\', '@', '=']
+_SMALL_ALPHABET = ['a', ' ', '\n', '"', "'", '#', '\\', '@', '=', '\xa0']
 
 
 def enum_small(tier):
@@ -554,7 +709,11 @@ def enum_small(tier):
 
 
 def cli_strategy(tier):
-    return gen.cli_case(tier)
+    return gen.cli_case(tier, uws=False)
+
+
+def cli_uws_strategy(tier):
+    return gen.cli_case(tier, uws=True)
 
 
 def tok_strategy(tier):
@@ -562,7 +721,8 @@ def tok_strategy(tier):
 
 
 _FUZZ_ALPHABET = ['a', 'b', ' ', ' ', '\t', '\n', '\n', "'", '"', '@[', ']@', 'S', '_', '#', '\\', '=', ':', '|', '(', ')',
-                  '{', '}', '!', '&&', '||', '-', '<<', 'EOF', ':>', 'é', '[', ']', '@', '<', '>', '&', '\r', '0']
+                  '{', '}', '!', '&&', '||', '-', '<<', 'EOF', ':>', 'é', '[', ']', '@', '<', '>', '&', '\r', '0',
+                  '\xa0', '\x0c', '\u2028', '\x1f', '\u3000']
 
 
 def decode_tok(data: bytes):
@@ -579,12 +739,14 @@ def decode_tok(data: bytes):
 
 def _render_cli(case):
     rd = gen.render(case)
-    return {'host': case['host'], 'target_instruction': rd['target']}
+    return {'host': case['host'], 'target_instruction': rd['target'], 'end': rd['end'], 'included': rd['inc']}
 
 
 SUBS = [
     Sub('cli_examples', check_example, enumerate=enum_examples, exhaustive=True, shards={'quick': 2, 'thorough': 2}),
-    Sub('cli_roundtrip', check_cli, strategy=cli_strategy, budget={'quick': 4000, 'thorough': 120000},
+    Sub('cli_roundtrip', check_cli, strategy=cli_strategy, budget={'quick': 3600, 'thorough': 100000},
+        render=_render_cli),
+    Sub('cli_unicode_space', check_cli, strategy=cli_uws_strategy, budget={'quick': 1800, 'thorough': 50000},
         render=_render_cli),
     Sub('tokenizer_diff', check_tok, strategy=tok_strategy, budget={'quick': 40000, 'thorough': 1500000}),
     Sub('tokenizer_small', check_tok, enumerate=enum_small, exhaustive=True),
